@@ -16,7 +16,8 @@ BUDGET = {"quick": (4, 600), "thorough": (16, 8000)}
 TECHNIQUE = "property-based testing (Hypothesis): wrapper algebra, model-based call histories for the cache, expression grammar vs own evaluator"
 RULE = (
     "Three generated families.  (algebra) a multiset of wrapper applications from {named(n), cached, serializable} on a "
-    "lambda, a def function or a string, applied in every order: all orders that the library accepts give == wrappers "
+    "lambda, a def function or a string (and, before it, on a sibling function of the same bytecode with another "
+    "constant), applied in every order: all orders that the library accepts give == wrappers "
     "with the same name, CachedFcn iff cached was applied, re-applying cached / serializable is idempotent, a second "
     "name raises ValueError.  (history) a call history on a wrapped (cached or not, named or not) counting function: "
     "arguments from a pool of scalars (1, 1.0, 2.5), equal-but-distinct and different arrays, fresh dict records of "
@@ -199,14 +200,14 @@ def strategy(tier):
 # ---------------------------------------------------------------------------------------------------------
 
 
-def _base(kind):
+def _base(kind, const="1"):
     if kind == "lambda":
-        return eval("lambda x: x + 1", {})  # noqa: S307
+        return eval(f"lambda x: x + {const}", {})  # noqa: S307
     if kind == "def":
         ns = {}
-        exec("def plus_one(x):\n    return x + 1\n", ns)  # noqa: S102
+        exec(f"def plus_one(x):\n    return x + {const}\n", ns)  # noqa: S102
         return ns["plus_one"]
-    return "x + 1"
+    return f"x + {const}"
 
 
 def check_algebra(case):
@@ -218,6 +219,14 @@ def check_algebra(case):
     auto = case["base"] in ("def", "str")
     results = []
     for perm in sorted(set(itertools.permutations(ops))):
+        # a sibling function of the same shape (same bytecode, another constant) goes through the same wrappers first:
+        # wrapping one function must not depend on which other functions were wrapped before
+        sib = _base(case["base"], "2.5")
+        try:
+            for op in perm:
+                sib = {"named": lambda f: named("nm_sibling", f), "cached": cached, "serializable": serializable}[op](sib)
+        except ValueError:
+            sib = None
         f = _base(case["base"])
         err = None
         named_seen = 0
@@ -247,6 +256,9 @@ def check_algebra(case):
         require(isinstance(f, UserFcn), "not-wrapped", f"{perm} did not produce a UserFcn")
         require(isinstance(f, CachedFcn) == ("cached" in ops), "cachedness-lost", f"{perm} on {case['base']}: CachedFcn is {isinstance(f, CachedFcn)} but cached applied is {'cached' in ops}")
         require(f(2) == 3, "wrapper-wrong-value", f"{perm}: wrapped function returned {f(2)!r} for 2")
+        if sib is not None and callable(sib):
+            require(sib(2) == 4.5, "wrapper-wrong-value", f"{perm}: a sibling function x + 2.5 wrapped the same way returned {sib(2)!r} for 2 after x + 1 was wrapped")
+            require(f(2) == 3 and f(4) == 5, "wrapper-wrong-value", f"{perm}: wrapped x + 1 returned {f(2)!r} / {f(4)!r} for 2 / 4 after its sibling was called")
         results.append((perm, f))
     for (p1, f1), (p2, f2) in zip(results, results[1:]):
         require(f1 == f2 and f2 == f1, "orders-not-equal", f"{p1} and {p2} on {case['base']} give unequal wrappers")
